@@ -179,7 +179,7 @@ func c09Bounded(eng *Engine, tier string, seed int64) *BoundedResult {
 	if tier == "thorough" {
 		depth = 6
 	}
-	out := runReplayTest(repoDir(), filepath.Join(repoDir(), "cache"), fmt.Sprintf(c09TestSrc, depth))
+	out := runHarness(repoDir(), filepath.Join(repoDir(), "cache"), fmt.Sprintf(c09TestSrc, depth))
 	res := &BoundedResult{
 		What:  "the real cache driven next to a reference model (entries in recency order): after every operation Set's result, Get's result, Stats (Count, Size == sum of live entries, Hit, Miss), the size and count bounds and the sequence of OnDelete calls (least recently used first, once each, with key and value) are compared",
 		Bound: fmt.Sprintf("every sequence of at most %d operations over {Set a/a'/b/c/dd, Get a/b/c, Del a/b, Clear} for 8 configurations (with and without LRU, count and size limits, element-size limit); single goroutine, no re-entrant callbacks", depth),
